@@ -35,6 +35,17 @@ CHECKS = {
    note="Programs = kernels validated. Trusted: clang front end, sympy polynomial arithmetic. Not decided: floating-point "
         "ties at exactly half a box; the geometric theorem that the sequential reduction is shortest for reduced "
         "triclinic boxes (a property of the formula, not of the code)."),
+ "C05": dict(cat="other", ref="DESIGN.md section 4 C05",
+   technique="lockset/typestate dataflow over the clang CFG with predicate splitting on SynchronizeThreads() (reader mutex as ownership lock, ring vectors as token semaphores with index classes), must-precede/dominance checks for start-up and join, who-may-call over resolved callees and fields",
+   text="Decides the structural core of the protocol for every interleaving: the shared reader and frame counters are only "
+        "touched inside one critical section of the reader mutex; every exit of ProcessData releases it; in ordered mode each "
+        "worker awaits In[id], reads, and passes In[(id+1)%n] exactly once on every path (likewise Out around MergeWorker); in "
+        "unordered mode no ring mutex is touched and merging happens after join under a mutex; rings are created and locked "
+        "before any thread starts; no application code reaches the shared reader or the protocol's members. These are "
+        "necessary conditions of frame-exactly-once/in-order/no-deadlock; breaking any of them breaks the property for some schedule.",
+   note="Not decided: byte-identical output across thread counts, what a subclass' MergeWorker/EvalConfiguration computes "
+        "(worker effect rule R5.7 of the design is not implemented), exception paths (EH edges off), fairness. Deadlock freedom is "
+        "argued from the verified token protocol, not model-checked."),
 }
 NA = {
 }
